@@ -4,7 +4,7 @@
 CONSTANTS
   BUF = 3
   MaxSends = 1
-  MaxSlow = 7
+  MaxSlow = 5
   Lims = {"tiny"}
   Classes = {"one", "Bm1", "B", "Bp1", "big"}
   Faults = FALSE
